@@ -1516,6 +1516,7 @@ def run(ck: Ck) -> None:
             'vcd_text_no_escape_outside_quotes': 'no_escape_outside_quotes cho_fields',
             'vcd_text_block_keywords_are_literals_outside_quotes': 'keywords_bare cho_fields',
             'vcd_text_field_census_nonempty': 'Nat.leb 40 (length cho_fields)',
+            'vcd_text_whole_item_lines_have_bare_keywords_followed_by_whitespace_and_quoted_fields': 'forallb TextLines.items_ok cho_lines && Nat.leb 40 (length cho_lines)',
         })
     if built and ok5:
         m_imps += IMP_CB
